@@ -248,6 +248,10 @@ def run_case(case, ctx):
 
     if k != "copy":
         for q in case.get("history", {}).get("g2", []):
+            # a table with one entry changed need not describe a proper mesh any more (repeated corners, faces with
+            # an antipodal edge): only quantities that do not depend on the faces' geometry are derived on it
+            if k in ("conn", "grow", "shrink", "swap", "extra_face") and q in ("face_areas", "bounds", "face_lon"):
+                continue
             getattr(g2, q)
     e12, e21 = (g1 == g2), (g2 == g1)
     n12, n21 = (g1 != g2), (g2 != g1)
